@@ -4,8 +4,8 @@ Design level : specs/CompareIdeal.tla (exact order of Python numbers of any size
                exponent / binary digits, bytes, str, complex, 64-bit addresses as limbs; the three
                clauses of the statement as guards) and specs/Compare.tla (cdata_richcompare and
                cdata_hash under Python's reflected-operand protocol).  TLC, over all triples of a
-               36-object universe (primitive cdata and Python values for -1, 0, -0.0, 1, 3, 0.5, 2^63,
-               inf, NaN, b'a', 'a', complex; long double; True; 6 pointer-like cdata on 4 addresses):
+               46-object universe (primitive cdata and Python values for -1, -2, 0, -0.0, 1, 3, 0.5, 2^63,
+               +-(2^61-1), 2(2^61-1), 2^61 (the boundaries of CPython's numeric hash), inf, NaN, b'a', 'a', complex; long double; True; 6 pointer-like cdata on 4 addresses):
                the model satisfies the clauses; equality is reflexive (NaN excepted), symmetric,
                transitive, orderings are dual, addresses are totally ordered - i.e. a consistent hash
                exists - and the model's hash respects every equality it reports, demanded or not.
@@ -38,7 +38,7 @@ CLAUSE = {
 
 
 def design_level(ctx):
-    jobs = [("MC_Compare(36 objects, all triples)", dict(module="Compare", workers=6, timeout=1500,
+    jobs = [("MC_Compare(46 objects, all pairs and triples)", dict(module="Compare", workers=6, timeout=1500,
                                                          cfg_text=cfg_text("Spec", {"Variant": "faithful"}, INVS)))]
     for v in ("hashobj", "hashbits", "ptreqint"):
         jobs.append(("sanity:" + v, dict(module="Compare", workers=2, cfg_text=cfg_text("Spec", {"Variant": v}, INVS))))
@@ -108,7 +108,9 @@ def realize(pools, o):
             if isinstance(plain, float):
                 obj = ffi.cast("double", plain)
             else:
-                obj = ffi.cast(["long long", "signed char", "int"][o["id"] % 3] if -128 <= plain < 128 else "uint64_t", plain)
+                small = ["long long", "signed char", "int"][o["id"] % 3]
+                obj = ffi.cast(small if -128 <= plain < 128 else "int64_t" if plain < (1 << 63) and o["id"] % 2 else
+                               "uint64_t" if plain >= 0 else "long", plain)
         elif k == "cplx":
             obj = ffi.cast("double _Complex", plain)
         elif k == "bytes":
@@ -236,7 +238,7 @@ def selftest(ctx):
 
 META = {
     "category": "model_checking",
-    "text": "TLC checks over all triples of a 36-object universe that the model of cdata_richcompare/cdata_hash under "
+    "text": "TLC checks over all triples of a 46-object universe that the model of cdata_richcompare/cdata_hash under "
             "Python's comparison protocol satisfies the three clauses, that the demanded relation is reflexive (NaN "
             "excepted), symmetric, transitive and dual (so a consistent hash exists) and that the model's hash respects "
             "every equality it reports; every ordered pair of that universe and seeded random pairs over all primitive "
